@@ -259,6 +259,9 @@ func checkC06(c *Ctx, r *Report) {
 		Why: "a field/parameter is required iff `required` is one of the comma-separated rules of its validate tag"})
 	ruleHelperShape(c, r, "C06.e", helperShape{Fn: "(definitions.RouteMetadata).GetValueReturnType", AllowedCalls: []string{"builtin.len"}, MustFields: []string{"Responses"}, MustConsts: []string{"1", "0"},
 		Why: "the value return type is Responses[0] exactly when the method returns (value, error)"})
+
+	// every element filter in these packages is a reviewed one
+	ruleSkipInventory(c, r, "C06.a", loadSkipTable(c.VerifDir), 6, "generator/swagen", "core/metadata")
 }
 
 // checkValidatorApplied: the validation converter is applied to the same schema with the
